@@ -22,6 +22,12 @@ Cases:
         ONE DataFrame(rows=<the rows held in that kind of container>, schema=names), then the calls OP one after the other on it:
         {"op":"collect","cols":..,"limit":V?} | {"op":"getitem","cols":..} | {"op":"rowcount"|"len"|"shape"} | {"op":"materialize"}
         | {"op":"append","entry":V};  observation {"ok":{"steps":[per call: {"cells","shape"}|{"exc"}|{"count"}|{"none"}],"source":rows the caller's container holds afterwards}}
+  {"k":"sess","ops":[S..]}   several row classes and frames alive in ONE process; objects are numbered in creation order:
+        {"new":"class","fields":[..],"tuples_only":bool}        Row.create_class(fields, tuples_only=...)
+        {"new":"frame","backing":..,"rows":V,"names":[..]}      DataFrame(rows=<container>, schema=names)
+        {"on":i,"make":V}                                       <class i>(V)   (V a dict, tuple or list)
+        {"on":i,"op":OP}                                        a dfseq call on frame i (append entry may be a dict)
+  A collect / getitem OP may carry "scribble": true - after the result was recorded the harness overwrites the returned array in place.
 Observation: {"ok": ...} | {"exc": class name} | {"died": wait status, "reproduced": bool}."""
 import itertools
 import json
@@ -43,7 +49,10 @@ LEVEL_TEXT = ("Machine-checked Coq theorems over an executable model of collect_
               "modelled as an object with state (rows still in the caller's tuple / deque / one-shot iterator, or materialised into a list; collect, df[...], rowcount, "
               "materialize, append as a step function): for every container kind and every sequence of reading calls each call returns what it returns on the frame's "
               "rows alone (history and backing independence), the rows after any history are the initial rows followed by the accepted appends, and a collect after any "
-              "reading history on rectangular rows is the plain definition. The model is tied "
+              "reading history on rectangular rows is the plain definition. DataFrame.collect's argument conversion is modelled (int32 index vector and C-int limit: OverflowError "
+              "outside the range, so an index outside 0..width-1 never yields a result however far outside it is), and several row classes and frames alive in one process are "
+              "modelled as a heap of objects with a proved locality theorem (what an object returns depends only on its own definition and the actions addressed to it; an "
+              "ordinary row class and DataFrame.append turn a dict into the value-or-None of the object's own fields in order). The model is tied "
               "to the shipped compiled .so by running the real helpers (and the callers DataFrame.collect / the display width call) in sacrificial processes on the "
               "exhaustive small scope and on random larger inputs and evaluating the model on the same inputs inside Coq; a literal property oracle and the observed "
               "exit status of every child supply replayable failing inputs.")
@@ -51,19 +60,22 @@ LEVEL_NOTE = ("Memory safety of the compiled object is observed (child exit stat
               "C10_collect_safe_partial carries the rectangularity guard (F-C10-1, known: ragged rows -> SIGSEGV; C10_collect_ragged_refuted); rows that are not tuples "
               "also reach UB (F-C10-2, new: list rows -> SIGSEGV, reachable through DataFrame.collect/display; C10_collect_nontuple_refuted). Modelled, not verified: the "
               "generated C, CPython object layout (PyBytes_GET_SIZE on a str reads its length), str() of the cell values (the harness supplies the rendering), Python "
-              "dict hashing/equality (keys are interned by the harness). Argument conversion (buffer dtype, C int range) is outside the model: malformed calls are "
-              "checked by the oracle and the exit status only. The .so cannot be rebuilt here (no Cython).")
+              "dict hashing/equality (keys are interned by the harness). Argument conversion of the direct helper calls (buffer dtype, C int range) is outside the model: malformed "
+              "calls are checked by the oracle and the exit status only (the conversion done by DataFrame.collect is modelled). What a tuples-only row class makes of a dict, and that "
+              "overwriting a returned array leaves the frame alone, are fixed by the Coq model / the harness respectively, not required by the oracle / not a model operation. The .so cannot be rebuilt here (no Cython).")
 DESIGN_REF = "DESIGN.md section 8, C10"
 COQ_IMPORTS = "From Orso Require Import Model.C10."
 COQ_CHECKS = {"collect": "c10_collect_check", "df": "c10_df_check", "extract": "c10_extract_check", "width": "c10_width_check",
-              "dfseq": "c10_dfseq_check"}
+              "dfseq": "c10_dfseq_check", "sess": "c10_sess_check"}
 COQ_SHOW = {"collect": "c10_collect_show", "df": "c10_df_show", "extract": "c10_extract_show", "width": "c10_width_show",
-            "dfseq": "c10_dfseq_show"}
+            "dfseq": "c10_dfseq_show", "sess": "c10_sess_show"}
 RULE = ("collect_cython: exhaustive over rectangular row lists up to 3x3 (distinct cell labels) x index vectors of length 0..3 over -2..width+1 x limits -2..rows+2 "
         "(quick: up to 2x2 in full, 3x3 with vectors of length <= 2), then random larger shapes with repeated indexes, all three column-count paths, mixed cell types, "
         "ragged and non-tuple rows, DataFrame.collect with names/ints/limits, sequences of calls on ONE DataFrame whose rows arrive in a list / tuple / deque / generator / iterator "
         "(exhaustive: every sequence of 1..2 calls (thorough 1..3) from a palette of limited and unlimited collects, df[...], rowcount, materialize, append, followed by a "
-        "collect + rowcount probe; random: 1..6 calls on larger frames), arbitrary dictionaries and field tuples (colliding keys 1/1.0/True, unhashable fields), "
+        "collect + rowcount probe; random: 1..6 calls on larger frames, the caller overwriting returned arrays in place), numeric extremes of DataFrame.collect (indexes offset by "
+        "+-2**31, +-2**32, 2**33, 3*2**32, 2**40, +-2**63, +-2**64 from -1..width, limits around 2**31..2**64; enumerated), sessions over several row classes (tuples-only / "
+        "ordinary) and frames with equal, permuted and overlapping field names in one process (enumerated creation orders x probe actions, and random), arbitrary dictionaries and field tuples (colliding keys 1/1.0/True, unhashable fields), "
         "object/str/numeric/2-D arrays for calculate_data_width (incl. through DataFrame.collect as display.py calls it), and malformed arguments; a case is non-trivial "
         "when the helper returned at least one cell / field / a width above the floor, or raised for an out-of-range index; distinct by canonical JSON")
 TRUSTED = [
@@ -71,6 +83,9 @@ TRUSTED = [
     "extract_dict_columns as PyDict_GetItem-or-None; calculate_data_width as a running maximum from 4 over rendered lengths",
     "DataFrame state model (Section Frame): self._rows as SEager (a list) / SLazy kind (the caller's tuple, deque or iterator), materialize-before-read, append = "
     "self._rows.append where that attribute exists; the caller's own container after the calls is judged by the Python oracle only",
+    "session model (Section Session): objects in creation order; Row.create_class builds an independent class each time; Row.__new__ = extract over the class's own fields "
+    "for a dict (tuple's own constructor - the dict's keys - for a tuples-only class), the same cells for a tuple/list; DataFrame.append uses the frame's own ordinary class; "
+    "numpy.array(indexes, dtype=int32) and the C-int conversion of limit raise OverflowError outside their ranges",
     "modelled, not verified: the generated C and CPython object layout; str() of cell values and dict key hashing/equality are supplied by the harness; argument conversion "
     "(memoryview dtype/ndim test, C int conversion of limit) is checked by oracle and exit status only",
     "the sacrificial-process harness: a death of the child is observed as its wait status; silent memory corruption that neither changes a result nor kills the child is invisible",
@@ -220,10 +235,17 @@ def _run_step(df, names, op):
         return {"returned_without_raising": True, "shape": list(r.shape)}
     try:
         if isinstance(cols, list):
-            return _cells(r)["ok"]
-        return {"shape": [1] + list(r.shape), "cells": [[canon(x) for x in r]]}
+            out = _cells(r)["ok"]
+        else:
+            out = {"shape": [1] + list(r.shape), "cells": [[canon(x) for x in r]]}
     except BaseException as e:
         return {"inspect_exc": type(e).__name__}
+    if op.get("scribble"):  # the caller overwrites the array it was given, in place; the frame must not care
+        try:
+            r[...] = "SCRIBBLED"
+        except BaseException as e:
+            out["scribble_exc"] = type(e).__name__
+    return out
 
 
 def _run_case(case):
@@ -286,6 +308,51 @@ def _run_case(case):
             if case["backing"] in ("list", "tuple", "deque"):  # what the caller's own container holds afterwards
                 source = [[canon(x) for x in row] if isinstance(row, tuple) else canon(row) for row in src]
             return {"ok": {"steps": steps, "source": source}}
+        elif k == "sess":
+            from orso.dataframe import DataFrame
+            from orso.row import Row
+
+            objs = []
+            steps = []
+            for i, op in enumerate(case["ops"]):
+                if op.get("new") == "class":
+                    try:
+                        objs.append(("class", Row.create_class(list(op["fields"]), tuples_only=bool(op["tuples_only"])), None))
+                        steps.append({"none": True})
+                    except BaseException as e:
+                        objs.append(("broken", None, None))
+                        steps.append({"exc": type(e).__name__})
+                elif op.get("new") == "frame":
+                    try:
+                        rows = build(op["rows"])
+                        src = _make_backing(op["backing"], rows)
+                        df = DataFrame(rows=src, schema=list(op["names"]))
+                        _LEAK.append((rows, src, df))
+                        objs.append(("frame", df, list(op["names"])))
+                        steps.append({"none": True})
+                    except BaseException as e:
+                        objs.append(("broken", None, None))
+                        steps.append({"exc": type(e).__name__})
+                elif "make" in op:
+                    kind, cls, _ = objs[op["on"]]
+                    try:
+                        row = cls(build(op["make"]))
+                        _LEAK.append(row)
+                        if not isinstance(row, tuple):
+                            steps.append({"value": type(row).__name__})
+                        else:
+                            steps.append({"row": [canon(x) for x in row]})
+                    except BaseException as e:
+                        steps.append({"exc": type(e).__name__})
+                else:
+                    kind, df, names = objs[op["on"]]
+                    st = _run_step(df, names, op["op"])
+                    if "returned_without_raising" in st:
+                        return dict(st, step=i)
+                    if "inspect_exc" in st:
+                        return {"inspect_exc": st["inspect_exc"], "step": i}
+                    steps.append(st)
+            return {"ok": {"steps": steps}}
         elif k == "extract":
             r = compiled.extract_dict_columns(build(case["data"]), build(case["fields"]))
         elif k == "width":
@@ -544,8 +611,8 @@ def _collect_view(case):
             return None
         cols = cols if isinstance(cols, list) else [cols]
         names = list(case["names"])
-        if not all((isinstance(c, str) and c in names) or (type(c) is int and INT_MIN <= c <= INT_MAX) for c in cols):
-            return None
+        if not all((isinstance(c, str) and c in names) or type(c) is int for c in cols):
+            return None  # (round 3: an int outside the int32 range is inside the model - df_collect_conv raises OverflowError)
         cols = [names.index(c) if isinstance(c, str) else c for c in cols]  # name -> position (the harness resolves names)
         if "limit" in case and case["limit"][0] not in ("i", "n"):
             return None
@@ -554,8 +621,6 @@ def _collect_view(case):
             lim = case["limit"][1]
             if lim < 0:
                 lim = -1
-            if lim > INT_MAX:
-                return None
         return rows[1], list(cols), lim
     return None
 
@@ -573,6 +638,8 @@ def _mode(case):
         ok = rows[0] == "l" and all(_row_kind(r) == ("tuple", w) for r in rows[1])
         ok = ok and all(op["op"] != "append" or (op["entry"][0] in ("t", "l") and len(op["entry"][1]) == w) for op in case["ops"])
         return "safe" if ok else "iso"
+    if k == "sess":
+        return "iso"
     if k == "extract":
         return "safe" if case["data"][0] == "d" and case["fields"][0] == "t" else "iso"
     if k == "width":
@@ -739,6 +806,10 @@ def oracle(case, obs):
             return ("no input may terminate the interpreter: the shared worker died with status %s while serving this call; the call alone does not "
                     "reproduce it, so one of the %s earlier calls in that worker corrupted memory (shrinking replays the sequence)" % (obs["died"], obs.get("shared_worker_calls_before", "?")))
         return "no input may terminate the interpreter: the sacrificial child died with status %s" % obs["died"]
+    if "returned_without_raising" in obs and case["k"] == "df" and _collect_view(case) is not None and any(not INT_MIN <= c <= INT_MAX for c in _collect_view(case)[1]):
+        far = [c for c in _collect_view(case)[1] if not INT_MIN <= c <= INT_MAX]
+        return ("a column index outside 0..width-1 must raise a Python exception however far outside it is: index %s cannot even be held by an int32 index vector, "
+                "yet DataFrame.collect returned an array of shape %s (the index was silently converted; the elements were not inspected)" % (far, obs["shape"]))
     if "returned_without_raising" in obs:
         return ("a row the call serves is not a tuple wide enough for every requested index (not a tuple at all, or shorter than the first row): "
                 "a Python exception is required, but the helper returned an array of shape %s - it read outside the row object; the "
@@ -770,6 +841,8 @@ def oracle(case, obs):
         return _oracle_df(case, obs)
     if k == "dfseq":
         return _oracle_dfseq(case, obs)
+    if k == "sess":
+        return _oracle_sess(case, obs)
     if k == "extract":
         data, fields = build(case["data"]), build(case["fields"])
         try:
@@ -849,6 +922,8 @@ def _oracle_df(case, obs):
             return "the Python definition raises %s here (unknown name, index outside 0..width-1 or malformed argument): an exception is required, returned %s" % (type(e).__name__, json.dumps(obs["ok"])[:200])
         return None
     if "exc" in obs:
+        if any(not INT_MIN <= c <= INT_MAX for c in idx):
+            return None  # an index no int32 index vector can hold: refusing it is right even when there is no row to be outside of
         if all(_row_kind(r)[0] == "tuple" for r in case["rows"][1]):
             return "well-formed DataFrame.collect raised %s; expected %s" % (obs["exc"], want)
         return None
@@ -865,64 +940,152 @@ def _op_text(op):
         lim = ""
         if "limit" in op:
             lim = ", limit=%s" % ("None" if op["limit"][0] == "n" else repr(build(op["limit"])))
-        return "collect(%r%s)" % (op["cols"], lim)
+        return "collect(%r%s)%s" % (op["cols"], lim, " [caller then overwrites the returned array in place]" if op.get("scribble") else "")
     if o == "getitem":
-        return "df[%r]" % (op["cols"],)
+        return "df[%r]%s" % (op["cols"], " [caller then overwrites the returned array in place]" if op.get("scribble") else "")
     if o == "append":
         return "append(%r)" % (build(op["entry"]),)
     return {"rowcount": "rowcount", "len": "len(df)", "shape": "shape", "materialize": "materialize()"}.get(o, o)
 
 
-def _oracle_dfseq(case, obs):
-    """One DataFrame, several calls.  The frame's rows are the rows it was built from, in order, followed by every entry
-    that an append accepted (returned None) - whatever container they arrived in and whatever was called before.  Each
-    collect / df[...] must be the plain definition over THOSE rows (the df oracle, literally), each row count their number."""
-    if "exc" in obs:
-        return "building the DataFrame from a %s of tuple rows raised %s" % (case["backing"], obs["exc"])
-    names = list(case["names"])
-    cur = list(case["rows"][1])
-    steps = obs["ok"]["steps"]
-    if len(steps) != len(case["ops"]):
-        return "harness: %d calls, %d step observations" % (len(case["ops"]), len(steps))
-    done = []
-    for i, (op, st) in enumerate(zip(case["ops"], steps)):
+def _dict_row(entry, names):
+    """The row an ordinary row class must make of the dict entry (JSON): the value under each field name in order, else None."""
+    d = {}
+    for kk, vv in entry[1]:
+        d[build(kk)] = vv
+    return ["t", [d[f] if f in d else ["n"] for f in names]]
+
+
+class _FrameOracle:
+    """One DataFrame under several calls.  The frame's rows are the rows it was built from, in order, followed by every entry
+    that an append accepted (returned None) - whatever container they arrived in, whatever was called before on this or on any
+    other object, and whatever the caller did to arrays it was given.  Each collect / df[...] must be the plain definition
+    over THOSE rows (the df oracle, literally), each row count their number; a dict entry is stored as the dictionary's value
+    or None for each column name in order (field extraction, literally)."""
+
+    def __init__(self, backing, rows, names, label="ONE DataFrame"):
+        self.backing, self.names, self.n0 = backing, list(names), len(rows)
+        self.cur = list(rows)
+        self.done = []
+        self.label = label
+
+    def step(self, i, op, st):
         o = op["op"]
-        where = "call %d, %s, on ONE DataFrame built from a %s of %d rows%s: " % (
-            i + 1, _op_text(op), case["backing"], len(case["rows"][1]), (" after " + "; ".join(done)) if done else "")
+        where = "call %d, %s, on %s built from a %s of %d rows%s: " % (
+            i + 1, _op_text(op), self.label, self.backing, self.n0, (" after " + "; ".join(self.done)) if self.done else "")
+        self.done.append(_op_text(op))
         if "value" in st:
             return where + "returned a %s, None expected" % st["value"]
+        if "scribble_exc" in st:
+            return where + "the returned array could not be written to (%s)" % st["scribble_exc"]
         if o in ("collect", "getitem"):
-            sub = {"k": "df", "rows": ["l", list(cur)], "names": names, "cols": op["cols"]}
+            sub = {"k": "df", "rows": ["l", list(self.cur)], "names": self.names, "cols": op["cols"]}
             if o == "collect" and "limit" in op:
                 sub["limit"] = op["limit"]
             sobs = {"exc": st["exc"]} if "exc" in st else {"ok": {"cells": st["cells"], "shape": st["shape"]}}
             why = _oracle_df(sub, sobs)
             if why is not None:
-                return where + "the frame's rows are now %s; %s" % ([[canon(build(x)) for x in r[1]] for r in cur], why)
+                return where + "the frame's rows are now %s; %s" % ([[canon(build(x)) for x in r[1]] for r in self.cur], why)
         elif o in ("rowcount", "len", "shape"):
             if "exc" in st:
-                return where + "raised %s; the row count %d expected" % (st["exc"], len(cur))
-            if st.get("count") != len(cur):
-                return where + "the row count must be %d (the rows the frame was built from plus the accepted appends), got %s" % (len(cur), st.get("count"))
-            if o == "shape" and st.get("ncols") != len(names):
-                return where + "shape[1] must be the number of columns %d, got %s" % (len(names), st.get("ncols"))
+                return where + "raised %s; the row count %d expected" % (st["exc"], len(self.cur))
+            if st.get("count") != len(self.cur):
+                return where + "the row count must be %d (the rows the frame was built from plus the accepted appends), got %s" % (len(self.cur), st.get("count"))
+            if o == "shape" and st.get("ncols") != len(self.names):
+                return where + "shape[1] must be the number of columns %d, got %s" % (len(self.names), st.get("ncols"))
         elif o == "materialize":
             if "exc" in st:
                 return where + "raised %s" % st["exc"]
         elif o == "append":
             if "none" in st:  # accepted: from now on the entry is the frame's last row (a refused append changes nothing)
-                cur.append(["t", list(op["entry"][1])])
+                e = op["entry"]
+                self.cur.append(_dict_row(e, self.names) if e[0] == "d" else ["t", list(e[1])])
         else:
             return "unknown call " + o
-        done.append(_op_text(op))
+        return None
+
+
+def _oracle_dfseq(case, obs):
+    if "exc" in obs:
+        return "building the DataFrame from a %s of tuple rows raised %s" % (case["backing"], obs["exc"])
+    steps = obs["ok"]["steps"]
+    if len(steps) != len(case["ops"]):
+        return "harness: %d calls, %d step observations" % (len(case["ops"]), len(steps))
+    fo = _FrameOracle(case["backing"], case["rows"][1], case["names"])
+    for i, (op, st) in enumerate(zip(case["ops"], steps)):
+        why = fo.step(i, op, st)
+        if why is not None:
+            return why
     src = obs["ok"].get("source")
     if src is not None:  # judged by this oracle only (the Coq model has no notion of the caller's container)
         orig = [[canon(build(x)) for x in r[1]] for r in case["rows"][1]]
         if src[:len(orig)] != orig:
             return ("after %s the %s the caller handed over must still hold its %d rows first and in order: expected %s, it holds %s"
-                    % ("; ".join(done), case["backing"], len(orig), orig, src))
+                    % ("; ".join(fo.done), case["backing"], len(orig), orig, src))
         if case["backing"] == "tuple" and len(src) != len(orig):
             return "the caller's tuple changed length"
+    return None
+
+
+def _sess_text(ops, upto):
+    out = []
+    for j, op in enumerate(ops[:upto]):
+        if op.get("new") == "class":
+            out.append("#%d = Row.create_class(%r, tuples_only=%r)" % (sum(1 for q in ops[:j] if "new" in q), tuple(op["fields"]), bool(op["tuples_only"])))
+        elif op.get("new") == "frame":
+            out.append("#%d = DataFrame(rows=<%s of %d rows>, schema=%r)" % (sum(1 for q in ops[:j] if "new" in q), op["backing"], len(op["rows"][1]), list(op["names"])))
+        elif "make" in op:
+            out.append("#%d(%r)" % (op["on"], build(op["make"])))
+        else:
+            out.append("#%d.%s" % (op["on"], _op_text(op["op"])))
+    return out
+
+
+def _oracle_sess(case, obs):
+    """Several row classes and frames in one process.  Each object is judged on its own definition and its own history only:
+    an ordinary row class must turn a dict into (the dictionary's value or None for each of ITS fields, in order) and a tuple /
+    list into the same cells; a frame is judged by the frame oracle (its appended dicts go through the same field extraction
+    over its column names).  What a tuples-only class makes of a dict is not a requirement of the property (Coq model only)."""
+    if "exc" in obs:
+        return "the session harness raised %s" % obs["exc"]
+    ops, steps = case["ops"], obs["ok"]["steps"]
+    if len(steps) != len(ops):
+        return "harness: %d operations, %d step observations" % (len(ops), len(steps))
+    objs = []
+    for i, (op, st) in enumerate(zip(ops, steps)):
+        if "new" in op:
+            if "exc" in st:
+                return "in one process: %s: creating the object raised %s" % ("; ".join(_sess_text(ops, i + 1)), st["exc"])
+            if op["new"] == "class":
+                objs.append(("class", [str(f) for f in op["fields"]], bool(op["tuples_only"])))
+            else:
+                objs.append(("frame", _FrameOracle(op["backing"], op["rows"][1], op["names"], label="frame #%d" % len(objs)), None))
+            continue
+        kind, a, b = objs[op["on"]]
+        txt = _sess_text(ops, i + 1)
+        ctx = "in one process: %s; then %s: " % ("; ".join(txt[:-1]), txt[-1])
+        if "make" in op:
+            data = op["make"]
+            if data[0] == "d" and b:
+                continue  # a dict handed to a tuples-only class: outside the property
+            if data[0] == "d":
+                want = [canon(build(x)) for x in _dict_row(data, a)[1]]
+                what = "the dictionary's value or None for each field %r in order" % (tuple(a),)
+            elif data[0] in ("t", "l", "T"):
+                want = [canon(build(x)) for x in data[1]]
+                what = "the cells it was given"
+            else:
+                continue
+            if "exc" in st:
+                return ctx + "raised %s; a row class must return %s: %s" % (st["exc"], what, want)
+            if "value" in st:
+                return ctx + "returned a %s, a tuple expected" % st["value"]
+            if st["row"] != want:
+                return ctx + "a row class must return %s: expected %s, got %s" % (what, want, st["row"])
+        else:
+            why = a.step(i, op["op"], st)
+            if why is not None:
+                return ctx + why
     return None
 
 
@@ -934,7 +1097,7 @@ def _coq_obs(obs, table):
     if "inspect_exc" in obs:
         return "OOtherExc"
     if "exc" in obs:
-        return {"IndexError": "OIndexError", "TypeError": "OTypeError"}.get(obs["exc"], "OOtherExc")
+        return {"IndexError": "OIndexError", "TypeError": "OTypeError", "OverflowError": "OOverflowError"}.get(obs["exc"], "OOtherExc")
     fresh = {}
 
     def ident(c):
@@ -987,6 +1150,8 @@ def to_coq(case, obs):
         return ("df", "(%s, %s, %s, %s)" % (crows, ccols, cl, _coq_obs(obs, table)))
     if k == "dfseq":
         return _to_coq_dfseq(case, obs)
+    if k == "sess":
+        return _to_coq_sess(case, obs)
     if k == "extract":
         if "ok" not in obs or case["fields"][0] != "t" or case["data"][0] not in ("d", "n"):
             return None
@@ -1022,9 +1187,57 @@ def to_coq(case, obs):
 _COQ_BACKING = {"list": "KList", "tuple": "KTuple", "deque": "KDeque", "gen": "KIter", "iter": "KIter"}
 
 
+def _coq_fop(op, names, table):
+    """One frame call as a Coq [fop Z] term, or None when it is outside the model."""
+    o = op["op"]
+    if o in ("collect", "getitem"):
+        cols = op["cols"] if isinstance(op["cols"], list) else [op["cols"]]
+        if not all(isinstance(c, str) or type(c) is int for c in cols):
+            return None
+        lim = op.get("limit", ["n"]) if o == "collect" else ["n"]
+        if lim[0] not in ("i", "n"):
+            return None
+        if any(isinstance(c, str) and c not in names for c in cols):
+            return "OpCollectUnknown"  # tuple.index raises ValueError after the frame was materialised
+        ccols = "(%s : list Z)" % L.lst(L.Z(names.index(c) if isinstance(c, str) else c) for c in cols)
+        if o == "getitem":
+            return "(OpGetitem %s)" % ccols
+        return "(OpCollect %s %s)" % (ccols, "(None : option Z)" if lim[0] == "n" else L.opt(L.Z(lim[1])))
+    if o in ("rowcount", "len", "shape"):
+        return "OpRowcount"
+    if o == "materialize":
+        return "OpMaterialize"
+    if o == "append":
+        e = op["entry"]
+        if e[0] not in ("t", "l", "T"):
+            return None
+        return "(OpAppend (%s : list Z))" % L.lst(L.Z(table.setdefault(canon(build(x)), len(table))) for x in e[1])
+    return None
+
+
+def _coq_fobs(op, st, table):
+    if "exc" in st:
+        if st["exc"] == "ValueError":
+            return "QValueError"
+        if st["exc"] == "AttributeError":
+            return "QAttributeError"
+        if op["op"] in ("collect", "getitem"):
+            return "(QCols %s)" % _coq_obs(st, table)
+        return "QOtherExc"
+    if "scribble_exc" in st:
+        return "QOtherExc"
+    if "cells" in st:
+        return "(QCols %s)" % _coq_obs({"ok": st}, table)
+    if "count" in st:
+        return "(QCount %s)" % L.Z(st["count"])
+    if "none" in st:
+        return "QNone"
+    return "QOtherExc"
+
+
 def _to_coq_dfseq(case, obs):
-    """(backing, rows, ops, observed outputs) - None when a call is outside the model (argument conversion of the limit,
-    a column that is neither a name nor a C int) or the child did not survive (the oracle reports that)."""
+    """(backing, rows, ops, observed outputs) - None when a call is outside the model (a limit that is not an int or None, a
+    column that is neither a name nor an int) or the child did not survive (the oracle reports that)."""
     if "ok" not in obs or case["rows"][0] != "l" or case["backing"] not in _COQ_BACKING:
         return None
     names = list(case["names"])
@@ -1032,53 +1245,86 @@ def _to_coq_dfseq(case, obs):
     crows = _coq_rows(case["rows"][1], table)
     cops = []
     for op in case["ops"]:
-        o = op["op"]
-        if o in ("collect", "getitem"):
-            cols = op["cols"] if isinstance(op["cols"], list) else [op["cols"]]
-            if not all(isinstance(c, str) or (type(c) is int and INT_MIN <= c <= INT_MAX) for c in cols):
-                return None
-            lim = op.get("limit", ["n"]) if o == "collect" else ["n"]
-            if lim[0] not in ("i", "n") or (lim[0] == "i" and lim[1] > INT_MAX):
-                return None
-            if any(isinstance(c, str) and c not in names for c in cols):
-                cops.append("OpCollectUnknown")  # tuple.index raises ValueError after the frame was materialised
-                continue
-            ccols = "(%s : list Z)" % L.lst(L.Z(names.index(c) if isinstance(c, str) else c) for c in cols)
-            if o == "getitem":
-                cops.append("(OpGetitem %s)" % ccols)
-            else:
-                cops.append("(OpCollect %s %s)" % (ccols, "(None : option Z)" if lim[0] == "n" else L.opt(L.Z(lim[1]))))
-        elif o in ("rowcount", "len", "shape"):
-            cops.append("OpRowcount")
-        elif o == "materialize":
-            cops.append("OpMaterialize")
-        elif o == "append":
-            e = op["entry"]
-            if e[0] not in ("t", "l", "T"):
-                return None
-            cops.append("(OpAppend (%s : list Z))" % L.lst(L.Z(table.setdefault(canon(build(x)), len(table))) for x in e[1]))
-        else:
+        t = _coq_fop(op, names, table)
+        if t is None:
             return None
+        cops.append(t)
+    cobs = [_coq_fobs(op, st, table) for op, st in zip(case["ops"], obs["ok"]["steps"])]
+    return ("dfseq", "(%s, %s, (%s : list (fop Z)), (%s : list fobs))" % (_COQ_BACKING[case["backing"]], crows, L.lst(cops), L.lst(cobs)))
+
+
+def _coq_dict(entry, table):
+    """[(key id, value id)..] in the dictionary's own order, or None when two keys that differ as text are equal in Python
+    (1 / 1.0 / True): the model compares interned ids."""
+    d = {}
+    seen = set()
+    for kk, vv in entry[1]:
+        key = build(kk)
+        try:
+            hash(key)
+        except TypeError:
+            return None
+        d[key] = vv
+        seen.add(canon(key))
+    if len(seen) != len(d):
+        return None
+    return "(%s : list (Z * Z))" % L.lst("(%s, %s)" % (L.Z(table.setdefault(canon(key), len(table))), L.Z(table.setdefault(canon(build(vv)), len(table))))
+                                         for key, vv in d.items())
+
+
+def _to_coq_sess(case, obs):
+    if "ok" not in obs:
+        return None
+    table = {canon(None): 0}   # the model's [none] is 0
+    kinds = []
+    cops = []
+    for op in case["ops"]:
+        if op.get("new") == "class":
+            kinds.append(("class", None))
+            cops.append("(NewClass (%s : list Z) %s)" % (L.lst(L.Z(table.setdefault(canon(str(f)), len(table))) for f in op["fields"]), L.boolean(bool(op["tuples_only"]))))
+        elif op.get("new") == "frame":
+            if op["rows"][0] != "l" or op["backing"] not in _COQ_BACKING:
+                return None
+            kinds.append(("frame", list(op["names"])))
+            cnames = "(%s : list Z)" % L.lst(L.Z(table.setdefault(canon(str(f)), len(table))) for f in op["names"])
+            cops.append("(NewFrame %s %s %s)" % (_COQ_BACKING[op["backing"]], cnames, _coq_rows(op["rows"][1], table)))
+        elif "make" in op:
+            data = op["make"]
+            if data[0] == "d":
+                cd = _coq_dict(data, table)
+                if cd is None:
+                    return None
+                cops.append("(On %s (AMake (DDict %s)))" % (L.nat(op["on"]), cd))
+            elif data[0] in ("t", "l", "T"):
+                cops.append("(On %s (AMake (DTuple (%s : list Z))))" % (L.nat(op["on"]), L.lst(L.Z(table.setdefault(canon(build(x)), len(table))) for x in data[1])))
+            else:
+                return None
+        else:
+            names = kinds[op["on"]][1]
+            fop = op["op"]
+            if fop["op"] == "append" and fop["entry"][0] == "d":
+                cd = _coq_dict(fop["entry"], table)
+                if cd is None:
+                    return None
+                cops.append("(On %s (AAppendDict %s))" % (L.nat(op["on"]), cd))
+            else:
+                t = _coq_fop(fop, names, table)
+                if t is None:
+                    return None
+                cops.append("(On %s (AFrame %s))" % (L.nat(op["on"]), t))
     cobs = []
     for op, st in zip(case["ops"], obs["ok"]["steps"]):
-        if "exc" in st:
-            if st["exc"] == "ValueError":
-                cobs.append("QValueError")
-            elif st["exc"] == "AttributeError":
-                cobs.append("QAttributeError")
-            elif op["op"] in ("collect", "getitem"):
-                cobs.append("(QCols %s)" % _coq_obs(st, table))
+        if "new" in op or "make" in op:
+            if "exc" in st or "value" in st:
+                cobs.append("XExc")
+            elif "none" in st:
+                cobs.append("XNone")
             else:
-                cobs.append("QOtherExc")
-        elif "cells" in st:
-            cobs.append("(QCols %s)" % _coq_obs({"ok": st}, table))
-        elif "count" in st:
-            cobs.append("(QCount %s)" % L.Z(st["count"]))
-        elif "none" in st:
-            cobs.append("QNone")
+                fresh = {}
+                cobs.append("(XRow (%s : list Z))" % L.lst(L.Z(table[c] if c in table else fresh.setdefault(c, -1 - len(fresh))) for c in st["row"]))
         else:
-            cobs.append("QOtherExc")
-    return ("dfseq", "(%s, %s, (%s : list (fop Z)), (%s : list fobs))" % (_COQ_BACKING[case["backing"]], crows, L.lst(cops), L.lst(cobs)))
+            cobs.append("(XFrame %s)" % _coq_fobs(op["op"], st, table))
+    return ("sess", "((%s : list (sop Z)), (%s : list sobs))" % (L.lst(cops), L.lst(cobs)))
 
 
 # ----------------------------------------------------------------------------------------------
@@ -1096,7 +1342,7 @@ def nontrivial_key(case, obs):
             return json.dumps(case, sort_keys=True)
         if k == "width_df" and any(x > 4 for x in o["value"]):
             return json.dumps(case, sort_keys=True)
-        if k == "dfseq" and any(any(st.get("cells") or []) for st in o["steps"]):
+        if k in ("dfseq", "sess") and any(any(st.get("cells") or []) or st.get("row") for st in o["steps"]):
             return json.dumps(case, sort_keys=True)
         return None
     if "exc" in obs and k in ("collect", "df") and obs["exc"] == "IndexError":
@@ -1119,6 +1365,10 @@ def classify(case, obs):
             yield "malformed-argument"
             return
         rows, cols, lim = v
+        if any(not INT_MIN <= c <= INT_MAX for c in cols):
+            yield "index-outside-int32"
+        if lim > INT_MAX:
+            yield "limit-above-INT_MAX"
         yield "path:%s" % ("1" if len(cols) == 1 else "2" if len(cols) == 2 else "0" if not cols else "n")
         yield "rows=%s" % (len(rows) if len(rows) <= 3 else "4+")
         w = _walk(rows, cols, lim)
@@ -1155,6 +1405,21 @@ def classify(case, obs):
             for st in obs["ok"]["steps"]:
                 if "exc" in st:
                     yield "step-exc:" + st["exc"]
+    elif k == "sess":
+        news = [op for op in case["ops"] if "new" in op]
+        yield "objects=%d" % len(news)
+        keyset = [tuple(sorted(str(f) for f in (op.get("fields") or op.get("names")))) for op in news]
+        if len(set(keyset)) < len(keyset):
+            yield "objects-sharing-field-names"
+        flags = {}
+        for op in news:
+            flags.setdefault(tuple(str(f) for f in (op.get("fields") or op.get("names"))), set()).add(bool(op.get("tuples_only", False)))
+        if any(len(v) == 2 for v in flags.values()):
+            yield "same-fields-tuples-only-and-ordinary"
+        if any("make" in op and op["make"][0] == "d" for op in case["ops"]):
+            yield "class-made-row-from-dict"
+        if any("op" in op and op["op"]["op"] == "append" and op["op"]["entry"][0] == "d" for op in case["ops"]):
+            yield "frame-append-dict"
     elif k == "extract":
         if case["data"][0] != "d" or case["fields"][0] != "t":
             yield "malformed-argument"
@@ -1209,9 +1474,81 @@ def _exhaustive_dfseq(tier):
                     yield {"k": "dfseq", "backing": backing, "rows": _rect(r, 2), "names": ["a", "b"], "ops": ops + probe}
 
 
+# numeric extremes: offsets that are congruent to small indexes modulo 2**32 / 2**64, and the int32 / int64 edges
+_OFFSETS = [2 ** 31, -2 ** 31, 2 ** 32, -2 ** 32, 2 ** 33, 3 * 2 ** 32, 2 ** 40, 2 ** 63, -2 ** 63, 2 ** 64, -2 ** 64]
+_BIG_LIMITS = [2 ** 31 - 1, 2 ** 31, 2 ** 32, 2 ** 32 + 1, 2 ** 33 + 2, 2 ** 63, 2 ** 64 + 1, -2 ** 31 - 1, -2 ** 32 + 1, -2 ** 64]
+
+
+def _exhaustive_extremes():
+    """DataFrame.collect with a column index offset + k for every offset above and k in -1..width (single / [i] / [0, i] /
+    [i, 0, 0]) on frames of 2 rows x 1..3 columns, and with limits around 2**31, 2**32, 2**63, 2**64."""
+    for w in (1, 2, 3):
+        names = ["c%d" % i for i in range(w)]
+        for off in _OFFSETS:
+            for k in range(-1, w + 1):
+                idx = off + k
+                for cols in (idx, [idx], [0, idx], [idx, 0, 0]):
+                    yield {"k": "df", "rows": _rect(2, w), "names": names, "cols": cols}
+    both, sc = {"op": "collect", "cols": [1, 0]}, {"scribble": True}
+    for backing in _BACKINGS:   # the caller overwrites what it was given; the same request again must not see that
+        yield {"k": "dfseq", "backing": backing, "rows": _rect(3, 2), "names": ["a", "b"],
+               "ops": [dict(both, **sc), both, dict(both, limit=["i", 2], **sc), dict(both, limit=["i", 2]),
+                       dict({"op": "collect", "cols": "b"}, **sc), {"op": "collect", "cols": "b"},
+                       dict({"op": "getitem", "cols": ["b"]}, **sc), {"op": "getitem", "cols": ["b"]}, {"op": "rowcount"}]}
+    for lim in _BIG_LIMITS:
+        yield {"k": "df", "rows": _rect(3, 2), "names": ["a", "b"], "cols": [1, 0], "limit": ["i", lim]}
+        yield {"k": "dfseq", "backing": "tuple", "rows": _rect(3, 2), "names": ["a", "b"],
+               "ops": [{"op": "collect", "cols": [1, 2 ** 32], "limit": ["i", 1]}, {"op": "collect", "cols": "b", "limit": ["i", lim]}, {"op": "collect", "cols": [1, 0]}, {"op": "rowcount"}]}
+
+
+_SESS_NAMES = {"ab": ["a", "b"], "ba": ["b", "a"]}
+
+
+def _sess_palette():
+    return [{"new": "class", "fields": _SESS_NAMES["ab"], "tuples_only": True},
+            {"new": "class", "fields": _SESS_NAMES["ab"], "tuples_only": False},
+            {"new": "class", "fields": _SESS_NAMES["ba"], "tuples_only": False},
+            {"new": "frame", "backing": "list", "rows": _rect(1, 2), "names": _SESS_NAMES["ab"]},
+            {"new": "frame", "backing": "tuple", "rows": _rect(2, 2), "names": _SESS_NAMES["ab"]},
+            {"new": "frame", "backing": "list", "rows": _rect(1, 2), "names": _SESS_NAMES["ba"]}]
+
+
+def _sess_probe(i, new):
+    """The actions that show what object i is: dicts (reordered, with a foreign key, with a missing field) and a tuple."""
+    b = 100 * (i + 1)
+    if new["new"] == "class":
+        return [{"on": i, "make": ["d", [[["s", "b"], ["i", b + 1]], [["s", "a"], ["i", b + 2]], [["s", "z"], ["i", b + 3]]]]},
+                {"on": i, "make": ["d", [[["s", "b"], ["i", b + 5]]]]},
+                {"on": i, "make": ["t", [["i", b + 7], ["i", b + 8]]]}]
+    return [{"on": i, "op": {"op": "append", "entry": ["d", [[["s", "b"], ["i", b + 21]], [["s", "zz"], ["i", 0]]]]}},
+            {"on": i, "op": {"op": "append", "entry": ["t", [["i", b + 31], ["i", b + 32]]]}},
+            {"on": i, "op": {"op": "collect", "cols": ["a", "b"], "scribble": True}},
+            {"on": i, "op": {"op": "getitem", "cols": ["b", "a"]}},
+            {"on": i, "op": {"op": "rowcount"}}]
+
+
+def _exhaustive_sess(tier):
+    """Every sequence of 2..3 (thorough: 2..4) object creations from the palette {tuples-only class over (a, b), ordinary class
+    over (a, b), ordinary class over (b, a), list-backed frame over (a, b), tuple-backed frame over (a, b), list-backed frame over (b, a)}, then the probe actions
+    on every object - in creation order, and in reverse creation order."""
+    pal = _sess_palette()
+    for ln in range(2, (4 if tier == "thorough" else 3) + 1):
+        for seq in itertools.product(pal, repeat=ln):
+            for order in (0, 1):
+                ops = [dict(x) for x in seq]
+                idxs = list(range(ln))
+                for i in (idxs if order == 0 else idxs[::-1]):
+                    ops += _sess_probe(i, seq[i])
+                yield {"k": "sess", "ops": ops}
+
+
 def exhaustive(tier):
     def it():
         for c in _exhaustive_dfseq(tier):
+            yield c
+        for c in _exhaustive_extremes():
+            yield c
+        for c in _exhaustive_sess(tier):
             yield c
         for r in range(0, 4):
             for w in (range(0, 4) if r else [0]):
@@ -1230,6 +1567,11 @@ def exhaustive(tier):
     label += ("; DataFrame call sequences: frames of 0..3 rows x 2 columns held in a list / tuple / deque / generator / iterator x every sequence of 1..%d calls "
               "from {collect both columns with limit absent, 0, 1, 2, rows, rows+1; collect('b', limit=1); df[['b']]; rowcount; materialize; append} "
               "followed by the probe collect + rowcount" % (3 if tier == "thorough" else 2))
+    label += ("; numeric extremes: DataFrame.collect with index offset + k for offsets +-2**31, +-2**32, 2**33, 3*2**32, 2**40, +-2**63, +-2**64 and k in -1..width "
+              "(single / [i] / [0, i] / [i, 0, 0]; widths 1..3) and limits around 2**31, 2**32, 2**63, 2**64")
+    label += ("; sessions: every sequence of 2..%d creations from {tuples-only row class (a,b), ordinary row class (a,b), ordinary row class (b,a), list-backed frame (a,b), "
+              "tuple-backed frame (a,b), list-backed frame (b,a)} followed by probe actions on every object (dicts reordered / with a foreign key / with a missing field, a tuple; for frames "
+              "append(dict), append(tuple), collect with the returned array overwritten, df[...], rowcount) in creation order and in reverse order" % (4 if tier == "thorough" else 3))
     return it(), label
 
 
@@ -1334,6 +1676,8 @@ def _rand_df(rng):
             cols.append(c if rng.random() < 0.5 else names[c])
         if cols and rng.random() < 0.15:
             cols[rng.randrange(len(cols))] = rng.choice([-1, w, w + 3, "nope"])
+        if cols and rng.random() < 0.05:
+            cols[rng.randrange(len(cols))] = rng.choice(_OFFSETS) + rng.randrange(-1, w + 1)
     case = {"k": "df", "rows": ["l", rows], "names": names, "cols": cols}
     q = rng.random()
     if q < 0.6:
@@ -1343,41 +1687,95 @@ def _rand_df(rng):
     return case
 
 
+def _rand_fop(rng, r, w, names, pos):
+    """One random call on a frame of (initially) r rows x w columns."""
+    q = rng.random()
+    if q < 0.45:
+        style = rng.random()
+        if style < 0.25:
+            cols = rng.choice([rng.randrange(w), names[rng.randrange(w)], names[rng.randrange(w)], -1, w, "nope"])
+        else:
+            cols = []
+            for _ in range(rng.choice([0, 1, 1, 2, 2, 3, 5])):
+                c = rng.randrange(w)
+                cols.append(c if rng.random() < 0.5 else names[c])
+            if cols and rng.random() < 0.12:
+                cols[rng.randrange(len(cols))] = rng.choice([-1, w, w + 3, "nope"])
+            if cols and rng.random() < 0.06:   # far outside: congruent to a valid index modulo 2**32 / 2**64
+                cols[rng.randrange(len(cols))] = rng.choice(_OFFSETS) + rng.randrange(-1, w + 1)
+        op = {"op": "collect", "cols": cols}
+        if rng.random() < 0.7:
+            op["limit"] = rng.choice([["n"], ["i", -1], ["i", -3], ["i", 0], ["i", 1], ["i", 1], ["i", 2], ["i", max(r - 1, 0)], ["i", r],
+                                      ["i", r + 1], ["i", r + 5], ["i", INT_MAX], ["i", rng.choice(_BIG_LIMITS)]])
+        if rng.random() < 0.3:
+            op["scribble"] = True
+        return op
+    if q < 0.6:
+        c = rng.randrange(w)
+        op = {"op": "getitem", "cols": rng.choice([c, names[c], [names[c]], [c, rng.randrange(w)], list(range(w))])}
+        if rng.random() < 0.3:
+            op["scribble"] = True
+        return op
+    if q < 0.75:
+        return {"op": rng.choice(["rowcount", "len", "shape"])}
+    if q < 0.85:
+        return {"op": "materialize"}
+    return {"op": "append", "entry": [rng.choice(["t", "t", "l"]), [rng.choice([["i", 5000 + 10 * pos + c], ["s", "n%d%d" % (pos, c)], ["n"]]) for c in range(w)]]}
+
+
 def _rand_dfseq(rng):
     """One frame in a random container, 1..6 calls on it."""
     r = rng.choice([0, 1, 2, 3, 3, 5, 8])
     w = rng.choice([1, 2, 3, 4])
     names = ["c%d" % i for i in range(w)]
     rows = _rand_rows(rng, r, w, distinct=rng.random() < 0.6)
-    ops = []
-    for pos in range(rng.randint(1, 6)):
-        q = rng.random()
-        if q < 0.45:
-            style = rng.random()
-            if style < 0.25:
-                cols = rng.choice([rng.randrange(w), names[rng.randrange(w)], names[rng.randrange(w)], -1, w, "nope"])
-            else:
-                cols = []
-                for _ in range(rng.choice([0, 1, 1, 2, 2, 3, 5])):
-                    c = rng.randrange(w)
-                    cols.append(c if rng.random() < 0.5 else names[c])
-                if cols and rng.random() < 0.12:
-                    cols[rng.randrange(len(cols))] = rng.choice([-1, w, w + 3, "nope"])
-            op = {"op": "collect", "cols": cols}
-            if rng.random() < 0.7:
-                op["limit"] = rng.choice([["n"], ["i", -1], ["i", -3], ["i", 0], ["i", 1], ["i", 1], ["i", 2], ["i", max(r - 1, 0)], ["i", r],
-                                          ["i", r + 1], ["i", r + 5], ["i", INT_MAX]])
-            ops.append(op)
-        elif q < 0.6:
-            c = rng.randrange(w)
-            ops.append({"op": "getitem", "cols": rng.choice([c, names[c], [names[c]], [c, rng.randrange(w)], list(range(w))])})
-        elif q < 0.75:
-            ops.append({"op": rng.choice(["rowcount", "len", "shape"])})
-        elif q < 0.85:
-            ops.append({"op": "materialize"})
-        else:
-            ops.append({"op": "append", "entry": [rng.choice(["t", "t", "l"]), [rng.choice([["i", 5000 + 10 * pos + c], ["s", "n%d%d" % (pos, c)], ["n"]]) for c in range(w)]]})
+    ops = [_rand_fop(rng, r, w, names, pos) for pos in range(rng.randint(1, 6))]
     return {"k": "dfseq", "backing": rng.choice(_BACKINGS), "rows": ["l", rows], "names": names, "ops": ops}
+
+
+_SESS_POOL = ["a", "b", "c"]
+
+
+def _rand_dict(rng, pos):
+    keys = [["s", x] for x in _SESS_POOL] + [["s", "zz"], ["s", "A"], ["n"], ["i", 7], ["s", ""]]
+    rng.shuffle(keys)
+    return ["d", [[kk, rng.choice([["i", 9000 + 10 * pos + j], ["s", "v%d%d" % (pos, j)], ["n"], ["f", (1.5).hex()]])] for j, kk in enumerate(keys[: rng.randint(0, 5)])]]
+
+
+def _rand_sess(rng):
+    """2..4 row classes / frames over a pool of three field names (so names collide across objects), 3..10 actions interleaved."""
+    ops, objs = [], []
+    total = rng.randint(4, 12)
+    for pos in range(total):
+        if not objs or (len(objs) < 4 and rng.random() < 0.3):
+            names = list(_SESS_POOL)
+            rng.shuffle(names)
+            names = names[: rng.randint(1, 3)]
+            if rng.random() < 0.55:
+                new = {"new": "class", "fields": names, "tuples_only": rng.random() < 0.45}
+            else:
+                r = rng.randint(0, 3)
+                new = {"new": "frame", "backing": rng.choice(_BACKINGS), "names": names,
+                       "rows": ["l", _rand_rows(rng, r, len(names), distinct=True)]}
+            objs.append(new)
+            ops.append(new)
+            continue
+        i = rng.randrange(len(objs))
+        o = objs[i]
+        if o["new"] == "class":
+            w = len(o["fields"])
+            if rng.random() < (0.3 if o["tuples_only"] else 0.7):
+                ops.append({"on": i, "make": _rand_dict(rng, pos)})
+            else:
+                ln = w if rng.random() < 0.85 else max(0, w + rng.choice([-1, 1]))
+                ops.append({"on": i, "make": [rng.choice(["t", "l"]), [["i", 7000 + 10 * pos + c] for c in range(ln)]]})
+        else:
+            w = len(o["names"])
+            if rng.random() < 0.25:
+                ops.append({"on": i, "op": {"op": "append", "entry": _rand_dict(rng, pos)}})
+            else:
+                ops.append({"on": i, "op": _rand_fop(rng, len(o["rows"][1]), w, o["names"], pos)})
+    return {"k": "sess", "ops": ops}
 
 
 _KEYS = [["s", "a"], ["s", "b"], ["s", "A"], ["s", ""], ["s", " a"], ["s", "é"], ["i", 1], ["i", 0], ["f", (1.0).hex()], ["b", True],
@@ -1491,6 +1889,8 @@ def generate(rng, tier):
         yield _random_case(rng, i)
         if i % 4 == 0:  # in addition to the streams above: call sequences on one DataFrame
             yield _rand_dfseq(rng)
+        if i % 8 == 0:  # ... and sessions over several row classes and frames in one process
+            yield _rand_sess(rng)
 
 
 def corpus():
@@ -1511,6 +1911,15 @@ def corpus():
                "ops": [{"op": "collect", "cols": ["b", 0], "limit": ["i", 1]}, {"op": "collect", "cols": ["b", 0]}, {"op": "getitem", "cols": "a"}, {"op": "rowcount"}]}
     yield {"k": "dfseq", "backing": "tuple", "rows": ["l", [t12, t34]], "names": ["a", "b"],      # append refused while lazy, accepted once a list
            "ops": [{"op": "append", "entry": ["t", [["i", 7], ["i", 8]]]}, {"op": "len"}, {"op": "append", "entry": ["l", [["i", 9], ["i", 10]]]}, {"op": "getitem", "cols": ["b"]}]}
+    yield {"k": "df", "rows": ["l", [t12, t34]], "names": ["a", "b"], "cols": [2 ** 32 + 1]}                  # far outside, congruent to column 1 modulo 2**32
+    yield {"k": "df", "rows": ["l", [t12, t34]], "names": ["a", "b"], "cols": [0, -2 ** 32], "limit": ["i", 1]}
+    yield {"k": "sess", "ops": [{"new": "class", "fields": ["k1", "k2"], "tuples_only": True},                  # what from_arrow builds ...
+                                {"on": 0, "make": ["t", [["s", "one"], ["s", "two"]]]},
+                                {"new": "frame", "backing": "list", "rows": ["l", [["t", [["i", 1], ["s", "x"]]]]], "names": ["k1", "k2"]},   # ... then a frame over the same names
+                                {"on": 1, "op": {"op": "append", "entry": ["d", [[["s", "k2"], ["s", "two"]], [["s", "k1"], ["i", 2]]]]}},
+                                {"on": 1, "op": {"op": "collect", "cols": ["k1", "k2"]}},
+                                {"new": "class", "fields": ["k1", "k2"], "tuples_only": False},
+                                {"on": 2, "make": ["d", [[["s", "k2"], ["i", 2]]]]}]}
     yield {"k": "dfseq", "backing": "deque", "rows": ["l", [t12]], "names": ["a", "b"],
            "ops": [{"op": "append", "entry": ["t", [["i", 7], ["i", 8]]]}, {"op": "collect", "cols": 0, "limit": ["i", 5]}, {"op": "shape"}]}
     yield {"k": "extract", "data": ["d", [[["i", 1], ["s", "one"]], [["s", "x"], ["n"]]]], "fields": ["t", [["f", (1.0).hex()], ["b", True], ["s", "x"], ["s", "y"]]]}
@@ -1524,8 +1933,10 @@ def search(rng):
     i = 0
     while True:
         i += 1
-        m = i % 7
-        if m == 6:
+        m = i % 8
+        if m == 7:
+            yield _rand_sess(rng)
+        elif m == 6:
             yield _rand_dfseq(rng)
         elif m in (0, 1):
             r, w = rng.randint(1, 3), rng.randint(0, 3)
@@ -1562,6 +1973,38 @@ def shrink(case):
         elif n == 1:
             yield cs[0]
         return
+    if k == "sess":
+        ops = case["ops"]
+        for i in range(len(ops) - 1, -1, -1):
+            if "new" not in ops[i]:
+                if len(ops) > 1:
+                    yield dict(case, ops=ops[:i] + ops[i + 1:])
+                continue
+            oi = sum(1 for q in ops[:i] if "new" in q)   # drop object oi together with the actions on it; renumber the rest
+            out = []
+            for j, q in enumerate(ops):
+                if j == i or ("on" in q and q["on"] == oi):
+                    continue
+                out.append(dict(q, on=q["on"] - 1) if "on" in q and q["on"] > oi else q)
+            if out:
+                yield dict(case, ops=out)
+        for i, q in enumerate(ops):
+            if q.get("new") == "frame":
+                rows = q["rows"][1]
+                for j in range(len(rows)):
+                    yield dict(case, ops=ops[:i] + [dict(q, rows=["l", rows[:j] + rows[j + 1:]])] + ops[i + 1:])
+                if q["backing"] != "list":
+                    yield dict(case, ops=ops[:i] + [dict(q, backing="list")] + ops[i + 1:])
+            data = q.get("make") or (q["op"].get("entry") if "op" in q else None)
+            if data is not None and data[0] == "d":
+                for j in range(len(data[1])):
+                    d2 = ["d", data[1][:j] + data[1][j + 1:]]
+                    yield dict(case, ops=ops[:i] + [dict(q, make=d2) if "make" in q else dict(q, op=dict(q["op"], entry=d2))] + ops[i + 1:])
+            if "op" in q and q["op"].get("scribble"):
+                o2 = dict(q["op"])
+                del o2["scribble"]
+                yield dict(case, ops=ops[:i] + [dict(q, op=o2)] + ops[i + 1:])
+        return
     if k == "dfseq":
         ops = case["ops"]
         for i in range(len(ops)):
@@ -1574,6 +2017,10 @@ def shrink(case):
             if "limit" in op:
                 o2 = dict(op)
                 del o2["limit"]
+                yield dict(case, ops=ops[:i] + [o2] + ops[i + 1:])
+            if op.get("scribble"):
+                o2 = dict(op)
+                del o2["scribble"]
                 yield dict(case, ops=ops[:i] + [o2] + ops[i + 1:])
             if op["op"] in ("collect", "getitem") and isinstance(op["cols"], list) and len(op["cols"]) > 1:
                 for j in range(len(op["cols"])):
